@@ -103,6 +103,8 @@ func TestVerifE5Replay(t *testing.T) {
 	switch name {
 	case "f7_empty_stale_index", "f7_unrelated_removed", "f7_req_empty", "f7_touch_empty":
 		vfE5ReplayF7(t, name)
+	case "empty_races_delivery":
+		vfE5ReplayEmptyDelivery(t, name)
 	case "f9_pump_holds":
 		vfE5ReplayF9Pump(t, name)
 	case "f9_put_after_exit_check":
@@ -393,4 +395,92 @@ func vfE5ReplayF9Put(t *testing.T, name string) {
 	depth := vfE5TotalDepth(n2, "f9", "c")
 	fmt.Printf("E5REPLAY %s acked=%v exit=%s depth_after_restart=%d lost=%v\n", name, perr == nil, exit, depth, perr == nil && depth == 0)
 	n2.Exit()
+}
+
+// Empty racing a delivery: the consumer's messagePump is inside StartInFlightTimeout, between the
+// in-flight map insert and the heap insert (chan.inflight.afterMapPush); Channel.Empty resets map and
+// heap and zeroes the consumer's in-flight count; the pump continues: heap insert, SendingMessage
+// (count = 1), the frame is sent.  The consumer's FIN then fails (the id is not in the map), so the
+// count is never decremented: with RDY 1 the consumer never receives another message.
+func vfE5ReplayEmptyDelivery(t *testing.T, name string) {
+	opts := vfE5Opts(t.TempDir())
+	opts.MemQueueSize = 10
+	opts.ClientTimeout = 60 * time.Second
+	n, err := New(opts)
+	if err != nil {
+		t.Fatal(err)
+	}
+	n.LoadMetadata()
+	go n.Main()
+	topic := n.GetTopic("ed")
+	ch := topic.GetChannel("c")
+	m := NewMessage(topic.GenerateID(), []byte("m"))
+	topic.PutMessage(m)
+	for d := time.Now().Add(5 * time.Second); ch.Depth() < 1 && time.Now().Before(d); {
+		time.Sleep(time.Millisecond)
+	}
+	g := vfE5NewGate("chan.inflight.afterMapPush")
+	conn, err := net.DialTimeout("tcp", n.RealTCPAddr().String(), 2*time.Second)
+	if err != nil {
+		t.Fatal(err)
+	}
+	defer conn.Close()
+	conn.Write([]byte("  V2"))
+	conn.Write([]byte("SUB ed c\n"))
+	conn.Write([]byte("RDY 1\n"))
+	g.wait(t)
+	ch.Empty()
+	close(g.release)
+	// read frames until the message arrives (skip the OK of SUB and heartbeats)
+	got := false
+	buf := make([]byte, 4096)
+	conn.SetReadDeadline(time.Now().Add(3 * time.Second))
+	var acc []byte
+	for !got {
+		k, err := conn.Read(buf)
+		if err != nil {
+			break
+		}
+		acc = append(acc, buf[:k]...)
+		if strings.Contains(string(acc), string(m.ID[:])) {
+			got = true
+		}
+	}
+	conn.Write([]byte("FIN " + string(m.ID[:]) + "\n"))
+	time.Sleep(100 * time.Millisecond)
+	var cl *clientV2
+	ch.RLock()
+	for _, c := range ch.clients {
+		cl = c.(*clientV2)
+	}
+	ch.RUnlock()
+	cnt := int64(-99)
+	ready := false
+	if cl != nil {
+		cnt = atomic.LoadInt64(&cl.InFlightCount)
+		ready = cl.IsReadyForMessages()
+	}
+	ch.inFlightMutex.Lock()
+	inMap := len(ch.inFlightMessages)
+	inHeap := len(ch.inFlightPQ)
+	ch.inFlightMutex.Unlock()
+	// a second message: is it ever delivered to this RDY-1 consumer?
+	m2 := NewMessage(topic.GenerateID(), []byte("second"))
+	topic.PutMessage(m2)
+	conn.SetReadDeadline(time.Now().Add(1500 * time.Millisecond))
+	second := false
+	acc = acc[:0]
+	for !second {
+		k, err := conn.Read(buf)
+		if err != nil {
+			break
+		}
+		acc = append(acc, buf[:k]...)
+		if strings.Contains(string(acc), string(m2.ID[:])) {
+			second = true
+		}
+	}
+	fmt.Printf("E5REPLAY %s delivered_after_empty=%v in_flight_map=%d heap=%d client_in_flight_count=%d ready=%v second_delivered=%v starved=%v\n",
+		name, got, inMap, inHeap, cnt, ready, second, got && !second && cnt > 0 && inMap == 0)
+	n.Exit()
 }
